@@ -194,7 +194,11 @@ func (n *ThreadedNewsYAML) DeleteArticle(newsPath []string, articleID uint32, _ 
 
 	catName := newsPath[len(newsPath)-1]
 
-	cat := cats[catName]
+	// Deleting an article of a category that does not exist must not create that category.
+	cat, ok := cats[catName]
+	if !ok {
+		return fmt.Errorf("news category %q does not exist", catName)
+	}
 	delete(cat.Articles, articleID)
 	cats[catName] = cat
 
